@@ -12,6 +12,8 @@ History syntax (one S-expression per case, parsed by lean/KrroodVerif/Drive/SG.l
     (mkq k c)      q_k = an(entity(let(C, None)))        (mkqd k c o ...)  q_k = an(entity(let(C, [o, ...])))
     (evalq k)      list(q_k.evaluate())                   (dropq k)         drop q_k, gc.collect()
     (query c)      mkq + evalq + dropq on a fresh query object; (queryd c o ...) with an explicit domain
+    (qstart k c)   it_k = iter(an(entity(x, x.label >= 0)).evaluate()) with x = let(C, None): a lazily consumed evaluation,
+                   nothing runs yet          (qnext k)  one next(it_k): records the label yielded, `stop`, or `raised`
     (defclass c p) define, at this point of the history, a new dataclass Symbol subclass of class p; it gets class index c
     (churn o n c)  n instances of class c (labels o .. o+n-1), each created and discarded at once (no gc, no sweep in
                    between): CPython hands the id() of the discarded instance to the next one
@@ -300,6 +302,8 @@ class Runner:
         self.outs: List[Tuple[List[Any], List[int]]] = []
         self.raised: Optional[str] = None
         self.auto = 0
+        # stepwise evaluations: key -> dict(it, q, cls, started, expected, yielded, status)
+        self.iters: Dict[int, Dict[str, Any]] = {}
         # class index -> class; the classes a history defines itself live only as long as the runner
         self.classes: Dict[int, Any] = dict(enumerate(self.S["classes"]))
 
@@ -423,6 +427,44 @@ class Runner:
         del res
         gc.collect()
 
+    def op_qstart(self, k: int, c: int):
+        from krrood.entity_query_language.entity import entity, let
+        from krrood.entity_query_language.quantify_entity import an
+        if k in self.iters:
+            return
+        x = let(self.classes[c], None)
+        q = an(entity(x, x.label >= 0))  # a condition makes the variable lazily consumed
+        self.iters[k] = dict(q=q, it=iter(q.evaluate()), cls=c, started=False, expected=[], yielded=[], status="open")
+
+    def _census_of(self, c: int) -> List[int]:
+        cls = self.classes[c]
+        exp = []
+        for l in sorted(self.epoch):
+            x = self.wrefs[l]()
+            if x is not None and isinstance(x, cls):
+                exp.append(l)
+            del x
+        return exp
+
+    def op_qnext(self, k: int):
+        st = self.iters.get(k)
+        if st is None or st["status"] != "open":
+            return
+        if not st["started"]:
+            st["started"] = True
+            st["expected"] = self._census_of(st["cls"])
+        try:
+            r = next(st["it"])
+            st["yielded"].append(r.label if r is not None else "none")
+            del r
+        except StopIteration:
+            st["status"] = "stop"
+        except Exception as e:  # noqa: BLE001
+            st["status"] = "raised"
+            e.__traceback__ = None
+            del e
+        gc.collect()
+
     def op_dropq(self, k: int):
         self.qs.pop(k, None)
         gc.collect()
@@ -457,6 +499,10 @@ class Runner:
             self.op_evalq(int(op[1]))
         elif name == "dropq":
             self.op_dropq(int(op[1]))
+        elif name == "qstart":
+            self.op_qstart(int(op[1]), int(op[2]))
+        elif name == "qnext":
+            self.op_qnext(int(op[1]))
         elif name in ("query", "queryd"):
             self.auto += 1
             k = 10 ** 9 + self.auto
@@ -493,9 +539,21 @@ class Runner:
             dup = sorted(set(l for l in nums if nums.count(l) > 1))
             if missing or extra or dup:
                 diffs.append(f"q{i}:missing={fmt(missing)},extra=[{','.join(extra)}],dup={fmt(dup)}")
+        parts = [fmt(sorted(l for l in labels if l != "none")) for labels, _ in self.outs]
+        for i, (k, st) in enumerate(self.iters.items()):
+            nums = [l for l in st["yielded"] if l != "none"]
+            missing = []
+            if st["status"] == "stop":
+                missing = [l for l in st["expected"] if self._alive(l) and l not in nums]
+            extra = [str(x) for x in sorted(set(l for l in nums if l not in st["expected"]))]
+            extra += ["none"] if "none" in st["yielded"] else []
+            dup = sorted(set(l for l in nums if nums.count(l) > 1))
+            if missing or extra or dup or st["status"] == "raised":
+                diffs.append(f"s{i}:missing={fmt(missing)},extra=[{','.join(extra)}],dup={fmt(dup)}"
+                             + (",raised" if st["status"] == "raised" else ""))
+            parts.append(f"it{k}={fmt(sorted(nums))}/{st['status']}")
         a = "ok" if not diffs else ";".join(diffs)
-        b = ";".join(fmt(sorted(l for l in labels if l != "none")) for labels, _ in self.outs)
-        return a + "|" + b
+        return a + "|" + ";".join(parts)
 
     def obs_relations(self) -> str:
         from krrood.entity_query_language.symbol_graph import SymbolGraph
@@ -538,8 +596,10 @@ def shift_op(op, d: int):
     n = op[0]
     if n == "new":
         return [n, int(op[1]) + d, op[2]]
-    if n in ("drop", "evalq", "dropq"):
+    if n in ("drop", "evalq", "dropq", "qnext"):
         return [n, int(op[1]) + d]
+    if n == "qstart":
+        return [n, int(op[1]) + d, op[2]]
     if n in ("rel", "set"):
         return [n, op[1], int(op[2]) + d, int(op[3]) + d]
     if n == "mkq":
@@ -609,6 +669,7 @@ def run_case(kind: str, line: str) -> str:
     finally:
         r.objs.clear()
         r.qs.clear()
+        r.iters.clear()
         del r
         gc.collect()
     return out
@@ -698,6 +759,7 @@ class Gen:
         self.qkeys: List[int] = []
         self.evaluated: set = set()
         self.nextq = 1
+        self.iter_keys: List[int] = []
         self.next_class = FIRST_DYNAMIC_CLASS
         self.parents: Dict[int, int] = {}  # classes defined by the history: class index -> parent
 
@@ -788,10 +850,10 @@ class Gen:
         return ["dropq", k]
 
     def history(self, length: int, w_new=3.0, w_drop=2.0, w_rel=2.0, w_sweep=1.0, w_clear=0.3, w_query=2.0,
-                plain=True, w_defclass=0.0, w_churn=0.0):
+                plain=True, w_defclass=0.0, w_churn=0.0, w_step=0.0):
         ops = []
-        kinds = ["new", "drop", "rel", "sweep", "clear", "query", "defclass", "churn"]
-        weights = [w_new, w_drop, w_rel, w_sweep, w_clear, w_query, w_defclass, w_churn]
+        kinds = ["new", "drop", "rel", "sweep", "clear", "query", "defclass", "churn", "step"]
+        weights = [w_new, w_drop, w_rel, w_sweep, w_clear, w_query, w_defclass, w_churn, w_step]
         while len(ops) < length:
             k = self.rng.choices(kinds, weights)[0]
             op = None
@@ -807,9 +869,18 @@ class Gen:
                 op = self.defclass()
             elif k == "churn":
                 op = self.churn()
+            elif k == "step":
+                # a lazily consumed evaluation: started once, advanced one next() at a time between other operations
+                if not self.iter_keys or self.rng.random() < 0.2:
+                    key = len(self.iter_keys) + 1
+                    self.iter_keys.append(key)
+                    op = ["qstart", key, self.rng.choice([0, 2, 2, 4, 1] + list(self.parents.values()))]
+                else:
+                    op = ["qnext", self.rng.choice(self.iter_keys)]
             elif k == "clear":
-                # a query object created but not yet evaluated holds a generator over the OLD registry: not modelled
-                if all(q in self.evaluated for q in self.qkeys):
+                # a query object created but not yet evaluated (or a suspended evaluation) holds a generator over the
+                # OLD registry: not modelled
+                if all(q in self.evaluated for q in self.qkeys) and not self.iter_keys:
                     op = ["clear"]
             else:
                 op = self.query_ops()
